@@ -36,6 +36,7 @@ type Encoder struct {
 	w             *World
 	c             *Ctx
 	sorts         map[string]*Sort
+	deepPre       bool
 	tracked       []trackedObj // objects allocated by the function under verification (see restoreFrame)
 	assumptions   []*Term
 	obls          []*Obligation
@@ -496,12 +497,23 @@ func (e *Encoder) mergeStates(conds []*Term, states []*State) *State {
 	c := e.c
 	res := &State{m: map[string]*Term{}, epoch: states[0].epoch}
 	keys := map[string]bool{}
+	mixed := false
 	for _, s := range states {
 		for k := range s.m {
 			keys[k] = true
 		}
+		if s.epoch != states[0].epoch {
+			mixed = true
+		}
 		if s.epoch > res.epoch {
 			res.epoch = s.epoch
+		}
+	}
+	if mixed {
+		// some path havocked the heap: a class none of the states has touched yet would otherwise be
+		// created lazily under the merged epoch and lose what the un-havocked paths know about it
+		for k := range e.sorts {
+			keys[k] = true
 		}
 	}
 	var ks []string
